@@ -23,7 +23,9 @@
   Per-case assumptions (the harness generates inside them; the differential check would show a
   breach): no module name is blacklisted except the empty string (`is_in_import_blacklist("")`),
   nothing is classified pip/stdlib, every located origin lies below search root 0 and is one of
-  `Proj.files`, every file parses, `--follow-imports` is the default (local modules).
+  `Proj.files`, every file parses, `--follow-imports` is the default (local modules); symbolic links
+  below the root (`Proj.phys`) point outside every search root and no two of them lead to one file
+  (the star-expansion's `seen` set, keyed by resolved origin, is then keyed by the spelled path).
 
   Every `raise` / `error.fatal` reachable in the fragment is an explicit outcome (`Stop`).
 -/
@@ -72,6 +74,9 @@ structure Cur where
   abs  : Bool
   dir  : Path
   stem : Str
+  /-- an absolute path that does NOT lie below search root 0 (a star-imported file reached through a
+  symbolic link, after `Import.origin`'s `.resolve()`): `dir` is then the whole directory part -/
+  out  : Bool := false
   deriving Repr, DecidableEq
 
 def Cur.path (c : Cur) : Path := c.dir ++ [c.stem ++ dotPy]
@@ -80,15 +85,33 @@ def Cur.isInit (c : Cur) : Bool := c.stem == sInit
 
 structure Proj where
   env       : Env
-  /-- `str(<search root 0>).replace("/", ".").split(".")` -/
+  /-- `str(<search root 0>.resolve()).replace("/", ".").split(".")` -/
   rootComps : List Str
   files     : List File
+  /-- symbolic links below search root 0: the files (path as spelled below the root) whose fully
+  resolved path `Path(origin).resolve()` differs from their origin `root.resolve() / <as spelled>`,
+  with that resolved path. Empty for a project without links below the root. -/
+  phys      : Dict Path Cur := []
 
-/-- `str(current_file).replace("/", ".").split(".")` -/
+/-- `str(current_file).replace("/", ".").split(".")` (dot-free directory names) -/
 def curComps (P : Proj) (c : Cur) : List Str :=
-  (if c.abs then P.rootComps else []) ++ c.dir ++ [c.stem, sPy]
+  if c.out then [[]] ++ c.dir ++ [c.stem, sPy]
+  else (if c.abs then P.rootComps else []) ++ c.dir ++ [c.stem, sPy]
 
+/-- the file as spelled below the search root: the target as given on the command line (`abs :=
+false`), `spec.origin` of a followed import (`abs := true`: `find_module_in_path` resolves the search
+directory only, Locator.`originAbs … .searchDir`) -/
 def curOf (abs : Bool) (f : File) : Cur := { abs := abs, dir := f.dir, stem := f.stem }
+
+/-- `starred.origin` = `Import.origin` = `Path(module_spec.origin).resolve()`: the fully resolved
+path, which is the origin itself unless a link lies below the search root -/
+def starCur (P : Proj) (g : File) : Cur := (Dict.get? P.phys g.path).getD (curOf true g)
+
+/-- no star-imported file is reached through a link below its search root -/
+def LinkFree (P : Proj) : Prop := ∀ g, starCur P g = curOf true g
+
+theorem linkFree_of_phys_nil (P : Proj) (h : P.phys = []) : LinkFree P := by
+  intro g; simp [starCur, h, Dict.get?]
 
 def fileAt (P : Proj) (p : Path) : Option File := P.files.find? (fun f => f.path == p)
 
@@ -347,7 +370,7 @@ def expandLoop (P : Proj) : Nat → List Sym → List Path → Tab → St → Ou
     | .file g =>
       if seen.contains g.path then expandLoop P fuel q seen t s
       else
-        (enter (curOf true g) (compileRoot P g) s).bind fun t' s =>
+        (enter (starCur P g) (compileRoot P g) s).bind fun t' s =>
           let seen := g.path :: seen
           expandLoop P fuel (q ++ starredImports P t' seen) seen (addCopies sd t'.syms t) s
 
